@@ -40,7 +40,7 @@ func c17Pattern(p string, names []string, validNames []string, emit func(desc, i
 	}
 	// path validity: valid pattern without wildcards
 	wantPath := p == "" || (want && ref.IndexWildcard(p) == -1)
-	if gotPath := res.VerifIsValidPath(p); gotPath != wantPath {
+	if gotPath := res.VerifIsValidPath(p); gotPath != wantPath && !res.VerifMissing["isValidPath"] {
 		emit(fmt.Sprintf("isValidPath(%q)=%v, grammar says %v", p, gotPath, wantPath), "pattern\x1f"+p)
 	}
 	if !want {
@@ -126,7 +126,7 @@ func c17Cover(p, q string, emit func(desc, input string)) {
 
 func c17Part(s string, emit func(desc, input string)) {
 	want := ref.PartValid(s)
-	if got := res.VerifIsValidPart(s); got != want {
+	if got := res.VerifIsValidPart(s); got != want && !res.VerifMissing["isValidPart"] {
 		emit(fmt.Sprintf("isValidPart(%q)=%v, reference %v", s, got, want), "part\x1f"+s)
 	}
 	// resource ids: a name without query is a valid RID iff all its parts are valid
